@@ -189,6 +189,9 @@ class Baton(object):
 
     def yield_point(self, tid):
         with self.cv:
+            if self.failed:          # the schedule could not be enforced: everybody runs freely to the end
+                self.cv.notify_all()
+                return
             if self.running == tid:
                 self.running = None
                 self.cv.notify_all()
@@ -202,6 +205,9 @@ class Baton(object):
                 if not self.cv.wait(20):
                     self.failed = 'scheduler wait timed out in thread %s' % tid
                     self.running = tid
+                    self.cv.notify_all()
+                    return
+                if self.failed:
                     return
 
     def finish(self, tid):
@@ -595,6 +601,8 @@ def main(tier, replay=None):
     # --- many evaluations in flight at once, one parser object each
     crowd = []
     for n in ((40,) if quick else (40, 70, 130)):
+        if STALLS[0] >= 2:
+            break
         case = {'kind': 'crowd', 'n': n, 'formulas': [inners[0], inners[1], outers[3], inners[5]]}
         ev, names = run_crowd(lib, case)
         core.validate_hist(run, [{'tid': 1, 'ev': ev, 'case': case}], 'crowd%d' % n, consts, engine='c03', parsers=names)
